@@ -1,5 +1,6 @@
 import TantivyModel.Proofs.Footer
 import TantivyModel.Proofs.Decimal
+import TantivyModel.Proofs.Crc32Burst
 /-!
 # C20 — Checksum validation detects any corruption of a segment file
 
@@ -99,6 +100,20 @@ theorem C20_bit_flip_detected (C : PayloadCodec) (hC : GoodCodec C) (body : Byte
   revert h2
   have : k = 0 ∨ k = 1 ∨ k = 2 ∨ k = 3 ∨ k = 4 ∨ k = 5 ∨ k = 6 ∨ k = 7 := by omega
   rcases this with h|h|h|h|h|h|h|h <;> subst h <;> decide
+
+/-- every change confined to four consecutive bytes of the body (any burst of up to 32 bits,
+e.g. a torn 4-byte write or a flipped word) is detected -/
+theorem C20_burst32_detected (C : PayloadCodec) (hC : GoodCodec C) (pre suf : Bytes)
+    (a0 a1 a2 a3 b0 b1 b2 b3 : UInt8) (v : Version)
+    (h : ¬ (a0 = b0 ∧ a1 = b1 ∧ a2 = b2 ∧ a3 = b3)) :
+    validate C ((pre ++ b0 :: b1 :: b2 :: b3 :: suf)
+      ++ footerBytes C { version := v, crc := crc32 (pre ++ a0 :: a1 :: a2 :: a3 :: suf) })
+      = .damaged := by
+  have hne := crc32_burst4 pre suf b0 b1 b2 b3 a0 a1 a2 a3
+    (fun ⟨h0, h1, h2, h3⟩ => h ⟨h0.symm, h1.symm, h2.symm, h3.symm⟩)
+  unfold validate
+  rw [C20_extract_append C hC]
+  simp [hne]
 
 /-- a file shorter than the fixed trailer is reported unreadable (never misread, never a panic
 in the model; the implementation's behaviour on 4..7 bytes is compared by the harness) -/
